@@ -58,6 +58,86 @@ pub struct Forged<S: Scheme> {
     pub proof: Proof<S>,
     pub claimed: Vec<S::F>,
     pub desc: String,
+    /// log2 of the probability that the forgery passes by the scheme's own (toy-size) soundness error
+    pub guard_log2: Option<f64>,
+}
+
+/// Linear-code schemes, "agreement on a window of the codeword": q_0 = p_0 + (a message whose encoding
+/// vanishes on the first m codeword positions, added to the first matrix row), so that the encoded
+/// matrices of p_0 and q_0 have identical columns below m. The library's own prover runs on (q, state_q)
+/// against commitment(p); the opened columns and authentication paths are then replaced by the authentic
+/// ones of p at the positions the proof opened. A verifier that samples all of the codeword catches a
+/// differing column with overwhelming probability; one that only looks at a window does not.
+pub fn lin_window_forge<S: Lin + Attack>(sess: &Session<S>, order: &[usize], point: &S::Pt, sel: u64) -> Option<Forged<S>>
+where
+    S::P: ark_poly::Polynomial<Fr>,
+{
+    use ark_poly::Polynomial;
+    use ark_poly_commit::{LabeledPolynomial, PolynomialCommitment};
+    let ck = &sess.keys.ck;
+    let p0 = sess.polys[order[0]].polynomial();
+    let (n_rows, n_cols, _rows, ext0) = lincode::ref_matrices::<S>(ck, p0).ok()?;
+    let n_ext = ext0[0].len();
+    if n_cols < 2 || n_cols > 96 {
+        return None;
+    }
+    let m = if (sel >> 40) % 3 == 0 { (n_cols / 2).max(1) } else { n_cols - 1 };
+    let x = lincode::message_vanishing_on_prefix::<S>(ck, n_cols, m, sel >> 8)?;
+    let mut qv = lincode::poly_vec::<S>(p0);
+    let full = qv.len();
+    if qv.len() < n_cols {
+        qv.resize(n_cols, Fr::zero());
+    }
+    for (j, xj) in x.iter().enumerate() {
+        qv[j] += *xj;
+    }
+    // the polynomial type fixes the vector length for multilinear extensions; a univariate one may grow
+    let q0 = S::from_vec(qv.clone(), p0);
+    if lincode::poly_vec::<S>(&q0).len() < full.min(n_cols) || lincode::ref_matrices::<S>(ck, &q0).map(|r| (r.0, r.1)).ok()? != (n_rows, n_cols) {
+        return None;
+    }
+    let mut lqs = Vec::new();
+    for (k, i) in order.iter().enumerate() {
+        let poly = if k == 0 { q0.clone() } else { sess.polys[*i].polynomial().clone() };
+        lqs.push(LabeledPolynomial::new(sess.polys[*i].label().clone(), poly, None, None));
+    }
+    let mut r0 = rng(sel ^ 0x77);
+    let crate::util::Out::Ok((_cq, sq)) = crate::util::guard(|| S::PC::commit(ck, lqs.iter(), Some(&mut r0))) else { return None };
+    let cs: Vec<_> = order.iter().map(|i| &sess.comms[*i]).collect();
+    let mut sp = sess.sponge();
+    let mut r1 = rng(sel ^ 0x78);
+    let crate::util::Out::Ok(fp) = crate::util::guard(|| S::PC::open(ck, lqs.iter(), cs, point, &mut sp, sq.iter(), Some(&mut r1))) else { return None };
+    let mut mp = lincode::proofs_mirror::<S>(&fp).ok()?;
+    if mp.len() != order.len() {
+        return None;
+    }
+    let mut t_first = 0usize;
+    for (k, i) in order.iter().enumerate() {
+        let (_, _, _, ext) = lincode::ref_matrices::<S>(ck, sess.polys[*i].polynomial()).ok()?;
+        let cols = lincode::columns_of(&ext);
+        let leaves: Vec<Vec<u8>> = cols.iter().map(|c| lincode::col_hash(c)).collect();
+        if k == 0 {
+            t_first = mp[k].opening.paths.len();
+        }
+        for j in 0..mp[k].opening.paths.len() {
+            let q = mp[k].opening.paths[j].leaf_index;
+            if q >= cols.len() || j >= mp[k].opening.columns.len() {
+                return None;
+            }
+            mp[k].opening.columns[j] = cols[q].clone();
+            mp[k].opening.paths[j] = lincode::ref_path(&leaves, q);
+        }
+    }
+    let proof = lincode::proofs_unmirror::<S>(&mp).ok()?;
+    let claimed: Vec<Fr> = lqs.iter().map(|q| q.polynomial().evaluate(point)).collect();
+    // chance that t uniformly drawn positions all fall into the window
+    let guard = if t_first >= n_ext { f64::NEG_INFINITY } else { t_first as f64 * ((m as f64) / (n_ext as f64)).log2() };
+    Some(Forged {
+        proof,
+        claimed,
+        desc: format!("prover run on q = p + (message whose encoding vanishes on the first {m} of {n_ext} codeword positions), columns and paths re-authenticated from p ({n_rows} x {n_cols} matrix, t = {t_first})"),
+        guard_log2: Some(guard),
+    })
 }
 
 fn rand_g1(seed: u64) -> G1A {
@@ -207,7 +287,7 @@ impl Attack for Ipa {
         let out = crate::util::guard(|| IpaPC::open(&pck, lqs.iter(), cs, point, &mut sp, ss, Some(&mut r)));
         let crate::util::Out::Ok(proof) = out else { return None };
         let claimed = lqs.iter().map(|q| q.polynomial().evaluate(point)).collect();
-        Some(Forged { proof, claimed, desc: format!("prover run under a key of {n} generators padded with {} identity elements ({} rounds)", big - n, n.trailing_zeros() as usize + k) })
+        Some(Forged { guard_log2: None, proof, claimed, desc: format!("prover run under a key of {n} generators padded with {} identity elements ({} rounds)", big - n, n.trailing_zeros() as usize + k) })
     }
     fn mutate(
         _sess: &Session<Self>,
@@ -827,6 +907,10 @@ pub fn mutate_lin<S: Lin>(
 macro_rules! lin_attack {
     ($s:ty) => {
         impl Attack for $s {
+            const HAS_FORGE: bool = true;
+            fn forge(sess: &Session<Self>, order: &[usize], point: &Self::Pt, sel: u64) -> Option<Forged<Self>> {
+                lin_window_forge::<Self>(sess, order, point, sel)
+            }
             fn mutate(
                 sess: &Session<Self>,
                 order: &[usize],
